@@ -111,26 +111,33 @@ func newLexer(env *interp.ExecEnv, name string, r io.RuneScanner) *lexer {
 		col:     1,
 	}
 	l.mark(0)
+	verifYield(verifSpawn, l)
 	go l.run()
 	return l
 }
 
 func (l *lexer) Lex(lval *yySymType) int {
+	verifYield(verifPreRecv, l)
 	switch tok := (<-l.token).(type) {
 	case token:
+		verifYield(verifPostRecv, l)
 		l.last.Store(tok.Pos())
 		lval.token = tok
 		return tok.typ
 	case word:
+		verifYield(verifPostRecv, l)
 		l.last.Store(tok.Pos())
 		lval.word = tok.val
 		return tok.typ
 	}
+	verifYield(verifPostRecv, l)
 	return 0
 }
 
 func (l *lexer) run() {
+	verifYield(verifStart, l)
 	defer func() {
+		verifYield(verifTerminal, l)
 		close(l.token)
 		if l.done != nil {
 			close(l.done)
@@ -1453,9 +1460,12 @@ func (l *lexer) scanCmdSubst(r rune) bool {
 		}
 		ll.mark(off)
 		ll.last.Store(ll.pos)
+		verifYield(verifSpawn, ll)
 		go ll.run()
 		yyParse(ll)
+		verifYield(verifPreJoin, ll)
 		<-ll.done
+		verifYield(verifPostJoin, ll)
 		if ll.err != nil {
 			l.mu.Lock()
 			l.err = ll.err
@@ -1593,9 +1603,22 @@ func (l *lexer) emit(typ int) {
 		}
 	}
 	l.word = nil
+	switch verifYield(verifPreSend, l) {
+	case verifForceSend:
+		l.token <- tok
+		verifYield(verifPostSend, l)
+		l.mark(0)
+		return
+	case verifForceBail:
+		<-l.cancel
+		verifYield(verifBailout, l)
+		panic(nil)
+	}
 	select {
 	case l.token <- tok:
+		verifYield(verifPostSend, l)
 	case <-l.cancel:
+		verifYield(verifBailout, l)
 		// bailout
 		panic(nil)
 	}
@@ -1678,6 +1701,7 @@ func (l *lexer) error(pos ast.Pos, msg string) {
 	case <-l.cancel:
 	default:
 		close(l.cancel)
+		verifYield(verifCancelClosed, l)
 	}
 }
 
@@ -1744,7 +1768,9 @@ func (h *heredoc) pop() *ast.Redir {
 		}
 		h.mu.Unlock()
 		// wait
+		verifYield(verifPreHeredoc, nil)
 		<-h.c
+		verifYield(verifPostHeredoc, nil)
 	}
 	return nil
 }
